@@ -314,7 +314,7 @@ def c04(ctx):
     V.validate(ctx, "Trace_C04", summ, V.default_sig, par=12)
     return V.finish(ctx, "model_checking",
                     rule="Apalache: for ALL pcr < 2^33*300 and ALL reserved-bit values the integer reading of the PCR layout is inverse (Apa_C04!PcrInv). MC: Dec(Enc(v)) = v, ISO bit positions, and 'decoding ignores reserved/marker/prefix bits' on 99 bases (single bits, 2^k-1, mixed) x ext values (9 quick / all 299 thorough). "
-                         "B3: InsertPCR/ExtractPCR/InsertPTS/gots.ExtractTime/pes.ExtractTime on single-bit and 2^k-1 patterns, every ext for sampled bases, limits +-2, random values, "
+                         "B3: InsertPCR/ExtractPCR/InsertPTS/gots.ExtractTime/pes.ExtractTime (the writers get a slice of exactly the field or one that goes on behind it) on single-bit and 2^k-1 patterns, every ext for sampled bases, limits +-2, random values, "
                          "prior buffer contents 0x00/0xFF/random with two trailing guard bytes, random byte strings and their single reserved/marker-bit flips; each written byte string and decoded value "
                          "validated by TLC against Timecodes (module Wide for 42-bit arithmetic). End to end: SetPCR/SetOPCR on an adaptation field (PCR only, OPCR only, both in either order; slot holding filler, random bytes or a non-canonical encoding of the same value; "
                          "splice countdown / private data switched on or off afterwards) - the six bytes at the ISO position must be the canonical encoding and both getter families read the value back; "
@@ -491,7 +491,7 @@ def c14(ctx):
                          "well-formed section with zero CRC residue. B3: FilterPMTPacketsToPids on 11 (33) PMT shapes (0..40 streams) x request lists (all subsets and reversed orderings for <= 4 streams, "
                          "duplicates, absent, PAT/PMT PID, empty) x pointer_field {0,1,5,100} x single/two/multi-packet carriages in both stuffing styles; TLC checks the input carriage, then the error "
                          "contract (incl. the PIDs named in the error text), output headers, pointer, section bytes, CRC and padding, packet count, inputs untouched; "
-                         "RemoveElementaryStreams/Pids/PIDExists on decoded PMTs. class = (op, stream bucket, request kind, packets, error)",
+                         "RemoveElementaryStreams/Pids/PIDExists on decoded PMTs as a history on one object (queries, removal, queries, second removal, queries; each answer judged against Pmt!Remove at that moment). class = (op, stream bucket, request kind, packets, error)",
                     trace_module="Trace_C14", sigfn=V.default_sig,
                     assumptions=["TLC/SANY and the JVM", "Pmt/Psi/Crc specs (C06, C13)", "elementary PIDs within a PMT are distinct",
                                  "the PIDs named by the error are read from the digits of the error text, in order"])
